@@ -159,6 +159,9 @@ structure Tables where
   intCls : Nat
   /-- index of the class `UntypedAtomic`: the typed value of an element / attribute without schema -/
   untypedCls : Nat
+  /-- indices of xs:anyAtomicType and xs:integer in the atomic table (maps.py / arrays.py `match_function_test`) -/
+  anyAtomic : Nat
+  integer : Nat
   /-- `castRows[c][t]` = class of `cast_to_primitive_type(sample of class c, 'xs:<t>')` -/
   castRows : List (List Nat)
   deriving Repr
@@ -409,18 +412,18 @@ def matchSt (tb : Tables) (xsd11 : Bool) : Bool → Ty → List Item → Res
   | _, .func a r, v =>                                      -- not stripped (l.272): occurrence None
     seqMatch .one (fun x => match x with
       | .func sa sr => .ok (funcItemTest tb sa sr a r)
-      | .map es =>                                          -- maps.py l.237-259
+      | .map es =>                                          -- maps.py match_function_test (with the `fix:` of fix-c18-4)
         (match a with
          | .cons k .nil =>
-           if endsPlusStar k then .ok false
-           else if !(r.beq .empty) && !(r.last == .opt || r.last == .star) then .ok false
-           else anyE (fun e => andE (matchSt tb xsd11 false k [.atom e.1]) (fun _ => matchSt tb xsd11 true r e.2)) es
+           if !isRestriction tb (.leaf (.atomic tb.anyAtomic) .one) k then .ok false   -- K ⊑ xs:anyAtomicType
+           else andE (matchSt tb xsd11 true r [])                                     -- a missing key: ()
+             (fun _ => allE (fun e => matchSt tb xsd11 true r e.2) es)                -- every value
          | _ => .ok false)
-      | .array ms =>                                        -- arrays.py l.141-160
+      | .array ms =>                                        -- arrays.py match_function_test
         (match a with
          | .cons k .nil =>
-           if endsPlusStar k then .ok false
-           else andE (matchSt tb true true k [.atom tb.intCls]) (fun _ => allE (fun m => matchSt tb xsd11 true r m) ms)
+           if !isRestriction tb (.leaf (.atomic tb.integer) .one) k then .ok false     -- I ⊑ xs:integer
+           else allE (fun m => matchSt tb xsd11 true r m) ms
          | _ => .ok false)
       | _ => .ok false) v
   | _, .map k vt o, v =>                                    -- l.305-315
@@ -434,22 +437,24 @@ def matchSt (tb : Tables) (xsd11 : Bool) : Bool → Ty → List Item → Res
 
 /-! ## `instance of` / `treat as` -/
 
-/-- a node item evaluated by the kind-test tokens with `context.item = node`, `axis = 'self'`
-(`select__*_kind_test`).  These are path steps, not type tests: see finding F18d. -/
-def instLeafNode (k : Kind) (name : Nat) (kids : List Nat) (root : Bool) : Leaf → Bool
-  | .anyNode => k != .document || root                      -- select__node_kind_test: `item is context.root`
+/-- a node item against a leaf kind test in `instance of` / `treat as` (l.236-280 with the `fix:` of fix-c18-4):
+`is_kind_test_excluded` rejects an item that is no attribute (namespace) node before an attribute() /
+namespace-node() test is evaluated, every node matches node(); the other kind-test tokens
+(`select__*_kind_test`) are evaluated with `context.item = node`, `axis = 'self'` -/
+def instLeafNode (k : Kind) (name : Nat) (kids : List Nat) (_root : Bool) : Leaf → Bool
+  | .anyNode => true
   | .kind .text .none => k == .text
   | .kind .comment .none => k == .comment
   | .kind .pi .none => k == .pi
   | .kind .pi (.name n) => k == .pi && n == name
-  | .kind .namespace .none => k == .namespace || k == .element   -- iterates `elem.namespace_nodes` (never empty: xml)
+  | .kind .namespace .none => k == .namespace
   | .kind .document .none => k == .document
-  | .kind .element .none => k == .element                   -- iter_children_or_self + isinstance
-  | .kind .element .wild => k == .element                   -- '*' token: elements only
-  | .kind .element (.name n) => k == .element && n == name   -- name test on the self axis (principal node kind: element)
-  | .kind .attribute .none => k == .attribute || (k == .element && !kids.isEmpty)  -- context.iter_attributes()
-  | .kind .attribute .wild => k == .attribute || (k == .element && !kids.isEmpty)
-  | .kind .attribute (.name n) => (k == .attribute && n == name) || (k == .element && kids.contains n)
+  | .kind .element .none => k == .element
+  | .kind .element .wild => k == .element
+  | .kind .element (.name n) => k == .element && n == name
+  | .kind .attribute .none => k == .attribute
+  | .kind .attribute .wild => k == .attribute
+  | .kind .attribute (.name n) => k == .attribute && n == name
   | .docElem nt => k == .document && (kids.filter (fun e => nameOK nt e)).length == 1   -- len(elements) == 1
   | _ => false
 
